@@ -67,7 +67,7 @@ Ltac xm :=
   | |- xarg _ (AP _) => apply XA_pat; xm
   | |- Forall _ [] => constructor
   | |- Forall _ (_ :: _) => constructor; [xm|xm]
-  | |- xpat _ (PArrayIndex (AL _) _) => apply XP_arrayindex_list; xm
+  | |- xpat _ (PArrayIndex (AL _) _ _) => apply XP_arrayindex_list; xm
   | |- xpat _ _ => constructor; xm
   | |- _ = _ -> _ => intros _; xm
   | |- _ => idtac
@@ -99,7 +99,7 @@ Definition ex_dict : pat := PDict (AD [("a"%string, AP (seq_ [1; 2; 3] 1)); ("b"
 Definition ex_dictkey : pat := PDictKey (AP ex_dict) (AP (PSequence (AL [AV (VStr "a"); AV (VStr "c")]) (AV (VInt 2)) 0 0)).
 Definition ex_concat : pat := PConcatenate (AL [AP (seq_ [1; 2] 1); AP (ser 7 2); AP (seq_ [3] 2)]) 0.
 Definition ex_arrayindex : pat :=
-  PArrayIndex (AL [AP (ser 0 9); AV (VInt 9); AP (seq_ [4; 5] 3)]) (AP (seq_ [0; 1; 0; 2; 2; 0] 1)).
+  PArrayIndex (AL [AP (ser 0 9); AV (VInt 9); AP (seq_ [4; 5] 3)]) (AP (seq_ [0; 1; 0; 2; 2; 0] 1)) false.
 Definition ex_round : pat := PMap (AP (PBinOp ODiv (AP (ser 5 4)) (AV (VInt 2)))) FRound [AP (seq_ [0] 9)] [].
 Definition ex_indexof : pat := PIndexOf (AL [AV (VInt 4); AV (VInt 5)]) (AP (seq_ [5; 4; 6] 1)).
 
